@@ -212,6 +212,7 @@ def filled_case(draw, tier='quick'):
     for q in range(n + 1):
         deck['surfaces'].append(md.surf(q + 1, 'px', [float(2 * q)]))
     deck['surfaces'].append(md.surf(50, 'cx', [0.5]))
+    deck['surfaces'].append(md.surf(51, 'py', [0.0]))
     labels = {'filled-cells'}
     cards = []
     cid = 0
@@ -227,11 +228,28 @@ def filled_case(draw, tier='quick'):
             ib = float(draw(st.sampled_from([0, 1])))
             cards.append(c)
             cid += 1
-            cards.append(md.cell(cid, 0, None, md.S(-50), imp={'n': ia}, u=u))
+            inner = md.cell(cid, 0, None, md.S(-50), imp={'n': ia}, u=u)
+            cards.append(inner)
             cid += 1
             cards.append(md.cell(cid, 0, None, md.S(50), imp={'n': ib}, u=u))
             labels.add('container:imp=%d,fillers=%d%d' % (imp != 0, ia != 0,
                                                          ib != 0))
+            c['n_leaves'] = 2
+            if draw(st.booleans()):
+                # a second level: the inner filler is itself filled with a
+                # universe of two cells; neither its importance nor theirs
+                # decides anything about the level-0 cell
+                u2 = 30 + q
+                inner['fill'] = {'u': u2, 'tr': None}
+                for sgn in (-1, 1):
+                    cid += 1
+                    cards.append(md.cell(
+                        cid, 0, None, md.S(sgn * 51),
+                        imp={'n': float(draw(st.sampled_from([0, 1])))},
+                        u=u2))
+                c['n_leaves'] = 3
+                labels.add('two-levels:imp=%d,inner-container=%d'
+                           % (imp != 0, ia != 0))
         else:
             cards.append(c)
     if draw(st.booleans()):
@@ -317,6 +335,10 @@ def check(case):
         # a volume developed from a filled cell names its level-0 container in
         # the last pair of its comment
         got.add(v.prov[-1][1] if v.prov else v.id)
+    parts = {}
+    for v in t4.nonvirtual():
+        if v.prov:
+            parts[v.prov[-1][1]] = parts.get(v.prov[-1][1], 0) + 1
     if got != live:
         return violation('importance:volumes',
                          {'expected_converted': sorted(live),
@@ -324,6 +346,15 @@ def check(case):
                           'wrongly_omitted': sorted(live - got),
                           'wrongly_converted': sorted(got - live),
                           'deck': text}, labels)
+    for c in deck['cells']:
+        # "converted" means all of it: one volume per cell at the leaves of
+        # the universes that fill it (they all cross the container here)
+        if c['id'] in live and c.get('n_leaves') and \
+                parts.get(c['id'], 0) != c['n_leaves']:
+            return violation('importance:partly-converted',
+                             {'cell': c['id'], 'expected_parts': c['n_leaves'],
+                              'parts': parts.get(c['id'], 0), 'deck': text},
+                             labels)
     m = NOTE_RE.search(res.stdout)
     noted = set()
     if m:
